@@ -1,4 +1,5 @@
 import Orca.Lemmas.Ops
+import Orca.Lemmas.Redirect
 /-!
 # C10 — replacing an import with a built function redirects all its uses
 The id of the function stays what it was; what it designates changes. Together with C06 (`c06_encode_refs`: every
@@ -27,5 +28,64 @@ example :
     let s0 : St := { f := { items := [⟨0, true, false, 5, 1⟩, ⟨1, false, false, 6, 0⟩], numImp := 1 },
                      imports := [⟨some Sp.G, false, 4⟩, ⟨some Sp.F, false, 5⟩] }
     ((replaceImport s0 1 9 []).1.f.items.map (fun i => (i.uid, i.imp))) = [(9, false), (6, false)] := by decide
+
+/-- **End to end, for every earlier and later history.** Take any state reached from a parsed module (`StInv`), replace the
+    function import `impId` by a built function `uid`, continue with any history that neither deletes nor converts that function
+    (and does not encode), then encode. Either the encoder fails loudly because some stored reference designates a deleted
+    entity, or: every emitted reference — call, `ref.func`, export, element entry, start — whose stored id was the id of the
+    replaced import designates the new function `uid` in the encoded module, and every reference at all designates the live
+    entity its id designated. -/
+theorem c10_uses_execute_new_body (s0 : St) (h0 : StInv s0) (impId uid : Nat) (sites : List Ref) (e : ImpEntry) (fid : Nat) (x : Item)
+    (he : s0.imports[impId]? = some e) (hk : e.sp = some Sp.F)
+    (hfind : s0.f.items.findIdx? (fun (it : Item) => !it.del && it.imp && it.impId == impId) = some fid)
+    (hx : s0.f.items[fid]? = some x) (himp : x.imp = true) (hxi : x.impId = impId)
+    (ops : List Op) (hs : ∀ op ∈ ops, op ≠ .encode ∧ op ≠ .deleteFunc fid ∧ ∀ u, op ≠ .localToImport fid u) :
+    let s := (run (replaceImport s0 impId uid sites).1 ops).1
+    (∃ s' F G M res st, encode s = (s', Ret.encoded F G M res st)
+        ∧ (∀ r' ∈ res ++ st.toList, ∃ r ∈ allRefs s, r'.site = r.site ∧ r'.sp = r.sp
+            ∧ (∃ u, PointsTo s r u ∧ designated F G M r' = some u)
+            ∧ (r.sp = .F → r.idx = fid → designated F G M r' = some uid)))
+    ∨ (∃ s' why, encode s = (s', Ret.panic why) ∧ ∃ r ∈ allRefs s, Dangling s r) := by
+  have hspec := replaceImport_spec s0 impId uid sites e fid x he hk hfind hx himp hxi
+  have h1 : StInv (replaceImport s0 impId uid sites).1 :=
+    stInv_step s0 (.replaceImport impId uid sites) (by intro h; cases h) h0
+  refine encode_redirects _ h1 fid { id := fid, imp := false, del := false, uid := uid, impId := 0 } hspec.2.1 ops ?_
+  intro op ho
+  obtain ⟨a, b, c⟩ := hs op ho
+  cases op with
+  | deleteFunc i => exact fun h => b (by subst h; rfl)
+  | localToImport i u => exact .inl (fun h => c u (by subst h; rfl))
+  | replaceImport k u c' => exact .inl rfl
+  | encode => exact absurd rfl a
+  | _ => exact True.intro
+
+/-- **Every other function keeps its identity through the replacement and whatever follows**: a function entry `y` at another
+    position `j` (a local function, or one carrying another import) that the later history does not address is still what every
+    reference with id `j` designates in the encoded module. -/
+theorem c10_other_functions_keep_identity (s0 : St) (h0 : StInv s0) (impId uid : Nat) (sites : List Ref) (j : Nat) (y : Item)
+    (hy : s0.f.items[j]? = some y) (hother : y.imp = false ∨ y.impId ≠ impId)
+    (ops : List Op) (hs : SparedBy j y ops) :
+    let s := (run s0 (.replaceImport impId uid sites :: ops)).1
+    (∃ s' F G M res st, encode s = (s', Ret.encoded F G M res st)
+        ∧ (∀ r' ∈ res ++ st.toList, ∃ r ∈ allRefs s, r'.site = r.site ∧ r'.sp = r.sp
+            ∧ (∃ u, PointsTo s r u ∧ designated F G M r' = some u)
+            ∧ (r.sp = .F → r.idx = j → designated F G M r' = some y.uid)))
+    ∨ (∃ s' why, encode s = (s', Ret.panic why) ∧ ∃ r ∈ allRefs s, Dangling s r) := by
+  refine encode_redirects s0 h0 j y hy _ ?_
+  intro op ho
+  rcases List.mem_cons.mp ho with rfl | ho
+  · exact hother
+  · exact hs op ho
+
+/-- non-vacuity of the end-to-end statement: import 1 (function id 0) is replaced, a function is added and code is injected
+    into another function afterwards; the export and the call site that named id 0 both designate the new body 9 -/
+example :
+    let s0 : St := { f := { items := [⟨0, true, false, 5, 1⟩, ⟨1, false, false, 6, 0⟩], numImp := 1 },
+                     imports := [⟨some Sp.G, false, 4⟩, ⟨some Sp.F, false, 5⟩],
+                     code := [(6, [⟨200, Sp.F, 0⟩])], exports := [(⟨100, Sp.F, 0⟩, false)] }
+    let s := (run (replaceImport s0 1 9 []).1 [.addImportFunc 7, .inject 1 [⟨201, Sp.F, 2⟩]]).1
+    (match (encode s).2 with
+     | Ret.encoded F _ _ res _ => res.map (fun r => (r.site, F[r.idx]?))
+     | _ => []) = [(100, some 9), (200, some 9), (201, some 7)] := by decide
 
 end Orca.Edit
